@@ -112,6 +112,21 @@ def _vars(e):
     return acc
 
 
+def _div_denoms(e):
+    acc, seen, stack = [], set(), [e]
+    while stack:
+        t = stack.pop()
+        i = t.get_id()
+        if i in seen:
+            continue
+        seen.add(i)
+        if z3.is_app(t):
+            if t.decl().kind() == z3.Z3_OP_DIV and t.num_args() == 2:
+                acc.append(t.arg(1))
+            stack.extend(t.children())
+    return acc
+
+
 def model_value(m, term):
     """evaluate a z3 term in a model -> int | Fraction | bool"""
     v = m.eval(term, model_completion=True)
@@ -424,8 +439,23 @@ class Engine:
                 cs.append(v * d == z3.ToReal(k))
             r, s2 = self._fresh_check(base + cs, 4000)
             if r == z3.sat:
-                return s2.model()
+                m = s2.model()
+                if self._model_ok(m, base):
+                    return m
         return None
+
+    @staticmethod
+    def _model_ok(m, constraints):
+        """defensive: a model handed to the replay / validation must make every constraint evaluate to true
+        (division by zero is uninterpreted in z3, so a 'model' may otherwise rely on x/0 taking a convenient value)"""
+        try:
+            for c in constraints:
+                zero_div = [t for t in _div_denoms(c) if model_value(m, t) == 0]
+                if zero_div or not z3.is_true(m.eval(c, model_completion=True)):
+                    return False
+        except Exception:
+            return False
+        return True
 
     # ---- exploration
     def explore(self, fn, max_paths=10 ** 9, deadline=None):
@@ -517,6 +547,16 @@ class SBool:
     def __sub__(self, o): return self._num() - o
     def __rsub__(self, o): return o - self._num()
     def __neg__(self): return -self._num()
+    def __truediv__(self, o): return self._num() / o
+    def __rtruediv__(self, o): return o / self._num()
+    def __floordiv__(self, o): return self._num() // o
+    def __rfloordiv__(self, o): return o // self._num()
+    def __mod__(self, o): return self._num() % o
+    def __rmod__(self, o): return o % self._num()
+    def __pow__(self, o): return self._num() ** o
+    def __rpow__(self, o): return o ** self._num()
+    def __abs__(self): return self._num()
+    def __pos__(self): return self._num()
     def __index__(self): return self._num()
     def __int__(self): return self._num()
     def __float__(self): return float(self._num())
@@ -834,6 +874,7 @@ def set_identity_hash(on):
     _SNum.__hash__ = h
     SInt.__hash__ = h
     SReal.__hash__ = h
+    SBool.__hash__ = h
 
 
 # --------------------------------------------------------------------------
